@@ -53,6 +53,7 @@ type Recorder struct {
 	Panics   [nFuncs]uint64 // bit i set: i-th call of that function panics (the caller recovers)
 	LibErr   bool           // failing calls return an error value of the library's own runtime error types
 	Nested   int            // nested library calls made
+	RetAcc   bool           // id() and first() return a jsonpath.Accessor of their own making (as a function that uses accessor-mode Retrieve itself would)
 	Panicked int            // planned panics raised
 	Bad      string         // first anomaly seen inside a callback
 	Self     fnType         // the parsed function being evaluated (re-entered by yf/ya now and then)
@@ -230,7 +231,20 @@ func mkFilter(f, variant int) func(interface{}) (interface{}, error) {
 		if f == fTag {
 			return tagOf(v, variant), nil
 		}
+		if r.RetAcc && f == fID {
+			return foreignAccessor(v), nil
+		}
 		return v, nil
+	}
+}
+
+// foreignAccessor is an Accessor that belongs to the user function (it writes into a cell of
+// the function's own); to the library it is a value like any other.
+func foreignAccessor(v interface{}) jsonpath.Accessor {
+	cell := []interface{}{v}
+	return jsonpath.Accessor{
+		Get: func() interface{} { return cell[0] },
+		Set: func(x interface{}) { cell[0] = x },
 	}
 }
 
@@ -258,6 +272,9 @@ func mkAggregate(f, variant int) func([]interface{}) (interface{}, error) {
 		case fFirst:
 			if len(vs) == 0 {
 				return nil, nil
+			}
+			if r.RetAcc {
+				return foreignAccessor(vs[0]), nil
 			}
 			return vs[0], nil
 		case fRet:
